@@ -29,6 +29,7 @@ def dispatch (line : String) : String :=
   | "strictwalk" :: args => C19.strictwalk args
   | "npr" :: args => C06.npr args
   | "readrange" :: args => C06.readrange args
+  | "inject" :: args => C06.inject args
   | "pipeline" :: args => C11.pipelineOp args
   | "monitor" :: args => C11.monitorOp args
   | "schedmon" :: args => C11.schedmonOp args
